@@ -452,6 +452,22 @@ func RunC10(c *Ctx) {
 		workload.W2(200, c.Seed, sink)
 		workload.W5([]int{1000, 70000, 1 << 20}, sink)
 	}
+	// number and string token families: every decimal exponent, thresholds, every surrogate
+	workload.W6Exponents(3, c.Seed, sink)
+	workload.W6Special(sink)
+	workload.W6Rows(1, c.Seed, sink)
+	workload.W7Surrogates(0, sink)
+	if c.Thorough() {
+		workload.W7Templates(sink)
+		workload.W6Generic(3000, false, c.Seed, sink)
+	} else {
+		workload.W7Templates(func(cs *h.Case) {
+			if (cs.P[2]+cs.P[3]+int(c.Seed))%8 == 0 {
+				sink(cs)
+			}
+		})
+		workload.W6Generic(300, false, c.Seed, sink)
+	}
 	flush()
 	if guard != nil {
 		guard.Close()
